@@ -24,6 +24,10 @@ CASES = [
     ("5'2<;", "M", [], "⟨ 0 | 1 ⟩\n"), ("5'2%;", "m", [], "⟨ 1 | 3 ⟩\n"), ("4'2%;", "Ṁ", [], "⟨ 1 | 3 ⟩\n"), ("'2%;", "m", [5], "⟨ 1 | 3 ⟩\n"),
     ("3ƛ2*;", "M", [], "⟨ 0 | 2 | 4 | 6 ⟩\n"), ("3ƛ2*;", "m", [], "⟨ 2 | 4 ⟩\n"), ("32µN;", "M", [], "⟨ 3 | 2 ⟩\n"),
     ("3(n)", "WṀ", [], "⟨ 0 | 1 | 2 ⟩\n"), ("3ɾ", "M", [], "⟨ 1 | 2 | 3 ⟩\n"), ("3ɾ", "m", [], "⟨ 1 | 2 | 3 ⟩\n"), ("3v›", "M", [], "⟨ 1 | 2 | 3 | 4 ⟩\n") if False else ("3ʀ", "m", [], "⟨ 0 | 1 | 2 | 3 ⟩\n"),
+    # printing a lazy result that was looked at before (one item already evaluated): every separator is printed
+    ("3ƛd;→x ←x h _ ←x", "", [], "⟨ 2 | 4 | 6 ⟩\n"), ("3ƛd;→x ←x h _ ←x h _ ←x", "", [], "⟨ 2 | 4 | 6 ⟩\n"), ("4'2%;→x ←x h _ ←x,", "O", [], "⟨ 1 | 3 ⟩\n"),
+    # a fold whose result is an empty list is that list, not 0
+    ("⟨⟩:\"ƒJ", "", [], "⟨  ⟩\n"),
     # arity 0: the callee runs on an empty stack of its own, not on the caller's
     ("3 λ0|1 2;†", "W", [], "⟨ 3 | 2 ⟩\n"), ("@f:0|5;3 4 @f;", "W", [], "⟨ 3 | 4 | 5 ⟩\n"), ("3 4 λ0|n;†", "W", [], "⟨ 3 | 4 | ⟨  ⟩ ⟩\n"),
     # a lambda / function without arguments reads 0 when its own scope is empty, not the program's inputs
